@@ -183,9 +183,9 @@ impl StoreBox {
     }
 
     pub fn proj(&self) -> Value {
-        let cache: Vec<Value> = match &*self.store.top_ixs.borrow() {
-            None => vec![],
-            Some(ixs) => vec![Value::Array(ixs.iter().map(|&i| json!(i)).collect())],
+        let (cache, cache_limit): (Vec<Value>, Vec<Value>) = match &*self.store.top_ixs.borrow() {
+            None => (vec![], vec![]),
+            Some((limit, ixs)) => (vec![Value::Array(ixs.iter().map(|&i| json!(i)).collect())], vec![json!(limit)]),
         };
         let mut m = Map::new();
         m.insert("n".into(), json!(self.store.records.len()));
@@ -194,6 +194,7 @@ impl StoreBox {
         m.insert("l".into(), jcps(&cps_of_chars(&self.store.dividers.0)));
         m.insert("r".into(), jcps(&cps_of_chars(&self.store.dividers.1)));
         m.insert("cache".into(), Value::Array(cache));
+        m.insert("cache_limit".into(), Value::Array(cache_limit));
         #[cfg(lucid_suggest_verif)]
         {
             m.insert("index_len".into(), json!(self.store.index.borrow().verif_len()));
